@@ -42,6 +42,7 @@ type SeqSpec struct {
 	NoDedupe  bool  // pure tree (cross-check of the canonical key)
 	Restart   bool  // after every history: flush the persistence queue, kill the node, start a new one on the same directory
 	Full      bool  // full node (listener, Serve) instead of engine only
+	Text      bool  // with Full: the clients speak the text protocol (LOCK / UNLOCK lines); only for alphabets whose requests are answered at once
 	MaxStates int
 	MonC01    bool // install the C01 grant-rule monitor (checked at every release of a shard mutex)
 	Restart2  bool // with Restart: in the second incarnation every restored hold is unlocked, then the node is stopped and started a third time
@@ -153,6 +154,9 @@ func ExecSeq(spec *SeqSpec, hist []SeqOp) (*SeqRun, string) {
 		}
 		var wireEvents []hapi.Event
 		collect := func() {
+			if spec.Text {
+				return
+			}
 			for i, cn := range conns {
 				cn.Pump()
 				for _, r := range cn.TakeBin() {
@@ -168,6 +172,13 @@ func ExecSeq(spec *SeqSpec, hist []SeqOp) (*SeqRun, string) {
 			}
 		}
 		do := func(i int, cmd hapi.Cmd) {
+			if spec.Full && spec.Text {
+				_ = conns[i].Send(textLine(cmd))
+				for _, r := range conns[i].TakeText() {
+					wireEvents = append(wireEvents, textEvent(clientName(i), cmd, r, len(wireEvents)))
+				}
+				return
+			}
 			if spec.Full {
 				_ = conns[i].Send(wire.BinFrame(cmd))
 				return
@@ -596,4 +607,55 @@ func (s *SeqSummary) Coverage(plan *SeqPlan, note string) map[string]interface{}
 		"exhaustive":                    !s.CapHit,
 		"explanation":                   note,
 	}
+}
+
+// textLine renders a lock / unlock command as the text-protocol line with the same field values (COUNT and
+// RCOUNT are one more than the binary fields; TIMEOUT / EXPRIED carry the flag word in their upper 16 bits).
+func textLine(c hapi.Cmd) []byte {
+	raw := func(b byte) string { k := make([]byte, 16); k[15] = b; return string(k) }
+	name := "LOCK"
+	if c.Type == 2 {
+		name = "UNLOCK"
+	}
+	args := []string{name, raw(c.Key), "LOCK_ID", raw(c.Id)}
+	if c.Flag != 0 {
+		args = append(args, "FLAG", fmt.Sprint(c.Flag))
+	}
+	args = append(args, "TIMEOUT", fmt.Sprint(uint32(c.TimeoutFlag)<<16|uint32(c.Timeout)), "EXPRIED", fmt.Sprint(uint32(c.ExpriedFlag)<<16|uint32(c.Expried)),
+		"COUNT", fmt.Sprint(uint32(c.Count)+1), "RCOUNT", fmt.Sprint(uint32(c.Rcount)+1))
+	return wire.Resp(args...)
+}
+
+// textEvent turns the text reply to cmd into the event the binary reply would be.
+func textEvent(client string, c hapi.Cmd, reply string, seq int) hapi.Event {
+	ev := hapi.Event{Seq: seq, T: vrt.Elapsed(), Client: client, Cmd: c.Type, Req: c.Req, Result: 0xfe}
+	ev.Key[15], ev.LockId[15] = c.Key, c.Id
+	f := strings.Fields(strings.Trim(reply, "*[]"))
+	num := func(s string) int {
+		n := 0
+		fmt.Sscan(strings.TrimLeft(s, "$:"), &n)
+		return n
+	}
+	if len(f) > 0 {
+		ev.Result = uint8(num(f[0]))
+	}
+	if strings.HasPrefix(reply, "-") {
+		ev.Result = 0xfd // an error line
+		if strings.Contains(reply, "DB") {
+			ev.Result = 3 // "Uknown DB Error": the database has not been touched by a lock yet
+		}
+	}
+	for i := 0; i+1 < len(f); i++ {
+		switch f[i] {
+		case "$LCOUNT":
+			ev.LCount = uint16(num(f[i+1]))
+		case "$LRCOUNT":
+			ev.LRCount = uint8(num(f[i+1]))
+		case "$LOCK_ID":
+			if b, err := hex.DecodeString(strings.TrimLeft(f[i+1], "$")); err == nil && len(b) == 16 {
+				copy(ev.LockId[:], b)
+			}
+		}
+	}
+	return ev
 }
